@@ -270,13 +270,17 @@ Fixpoint gs_cols (fuel : nat) (vs : list vec) : list (vec * A * list A) :=
   | _, _ => []
   end.
 
-(* A : n x m (rows) ; returns Q (n x m) and R (n x m, rows >= m are zero) as the Go code does *)
-Definition gram_schmidt (Am : mat) : mat * mat :=
+(* A : n x m (rows) ; returns Q (n x m) and R (n x m).  Only the entries
+   R_ij with i <= j, i < m are written by the Go code: everything else keeps the
+   content of the caller's buffer R0 (zeros when the routine allocates R itself). *)
+Definition gram_schmidt_in (R0 : mat) (Am : mat) : mat * mat :=
   let n := length Am in let m := ncols Am in
   let st := gs_cols m (transpose_n m Am) in
   let Q := transpose_n n (map (fun t => fst (fst t)) st) in
-  let Rrows := map2 (fun i t => zeros i ++ snd (fst t) :: snd t) (seq 0 m) st in
-  (Q, Rrows ++ repeat (zeros m) (n - m)).
+  let Rrows := map2 (fun i t => firstn i (nth i R0 []) ++ snd (fst t) :: snd t) (seq 0 m) st in
+  (Q, Rrows ++ skipn m R0).
+Definition gram_schmidt (Am : mat) : mat * mat :=
+  gram_schmidt_in (repeat (zeros (ncols Am)) (length Am)) Am.
 
 (* ------------------------------------------------------------------ *)
 (* blocks *)
